@@ -99,6 +99,13 @@ struct Tally {
    std::set<std::string> excluded;              // open known findings + signatures already reported by this run
 };
 
+// counters whose name starts with "max_" are merged by maximum, all others are summed
+inline void merge_class(std::map<std::string, long>& m, const std::string& k, long v)
+{
+   if (k.rfind("max_", 0) == 0) m[k] = std::max(m[k], v);
+   else m[k] += v;
+}
+
 inline void write_file(const std::string& path, const std::string& body)
 {
    std::ofstream f(path, std::ios::binary | std::ios::trunc);
@@ -202,6 +209,17 @@ struct CurrentCase {
    }
 };
 
+// the running binary's current-case file (set by drive); enumerated parts record their case here too
+inline CurrentCase*& current_case_slot()
+{
+   static CurrentCase* p = nullptr;
+   return p;
+}
+inline void put_current(const std::string& body)
+{
+   if (auto p = current_case_slot()) p->put(body);
+}
+
 inline double now_s()
 {
    using namespace std::chrono;
@@ -220,7 +238,7 @@ inline void account(const Options& o, Tally& tally, const std::string& text, con
       if (tally.samples.size() < 2) tally.samples.push_back(sample);
    }
    for (auto& [k, v] : out.classes) {
-      tally.classes[k] += v;
+      merge_class(tally.classes, k, v);
       if (v > 0) ++tally.class_cases[k];
    }
    for (auto& f : out.findings) {
@@ -289,12 +307,13 @@ int drive(int argc, char** argv, const char* prop, Hooks<Case> hk)
          std::printf("SIG %s %s\n", f.signature.c_str(), f.message.c_str());
          tally.violations.push_back({f.signature, f.message, o.replay});
       }
-      for (auto& [k, v] : out.classes) tally.classes[k] += v;
+      for (auto& [k, v] : out.classes) merge_class(tally.classes, k, v);
       write_fragment(o, tally, now_s() - t0);
       return 0;
    }
 
    CurrentCase current(o.out.empty() ? std::string() : o.out + ".current");
+   current_case_slot() = &current;
    tally.excluded = o.known;
    if (hk.exhaustive && o.shard == 0) hk.exhaustive(o, tally);
 
@@ -340,7 +359,7 @@ int drive(int argc, char** argv, const char* prop, Hooks<Case> hk)
             if (tally.samples.size() < 3) tally.samples.push_back(hk.sample ? hk.sample(c) : text);
          }
          for (auto& [k, v] : out.classes) {
-            tally.classes[k] += v;
+            merge_class(tally.classes, k, v);
             if (v > 0) ++tally.class_cases[k];
          }
          for (auto& f : out.findings) {
